@@ -66,6 +66,9 @@ func Generate(r *sim.Rng, prop, tier string, idx int) *sim.Case {
 	if tier == "thorough" && r.Chance(1, 4) && prop != "C04" {
 		backendKind = 1
 	}
+	if tier != "thorough" && r.Chance(1, 12) && prop != "C04" {
+		backendKind = 1
+	}
 	c.Knobs["backend"] = backendKind
 	switch prop {
 	case "C01":
